@@ -60,6 +60,7 @@ pub fn program_case(prog: Vec<MOp>) -> ExecCase {
     let (solutions, state) = snippet_world();
     ExecCase {
         parent: None,
+        halt: false,
         prog,
         init: MState::default(),
         solutions,
